@@ -98,6 +98,11 @@ type Gen struct {
 	unkeyed      int
 	nextIsClause bool
 	clause       []bool
+	// helper declarations of the idiom templates
+	idiomFuncs     map[string]string
+	idiomOrder     []string
+	idiomTypes     map[string]string
+	idiomTypeOrder []string
 }
 
 func (g *Gen) on(f string) bool { return !g.cfg.Off[f] }
